@@ -330,7 +330,7 @@ def validate(ctx, name, consts, path, traces, chunks=8):
         p = os.path.join(wd, "part.ndjson")
         with open(p, "w") as fh:
             fh.write("\n".join(lines[i] for i in ixs) + "\n")
-        r = tlc.run(mod, cfg, extra_files=files, workers=1, env_extra={"TRACE_FILE": p}, timeout=3000, want_records=False)
+        r = tlc.run(mod, cfg, extra_files=files, workers=1, env_extra={"TRACE_FILE": p}, timeout=3000, want_records=False, heap="2g")
         marks = {}
         seen_done = False
         last_args = None
